@@ -16,7 +16,8 @@ from .c01 import loop_depths
 
 FFT = "variable_versions::data_number::FieldValue::from_field_type"
 CONSUMERS = ("std::iter::Iterator::fold", "std::iter::Iterator::try_fold", "std::iter::Iterator::for_each", "std::iter::Iterator::map",
-             "std::iter::Iterator::try_for_each", "std::iter::Iterator::flat_map", "std::iter::Iterator::filter_map")
+             "std::iter::Iterator::try_for_each", "std::iter::Iterator::flat_map", "std::iter::Iterator::filter_map",
+             "std::iter::Iterator::map_while", "std::iter::Iterator::scan")
 BAD_ADAPTORS = re.compile(r"std::iter::(Rev|Skip|StepBy|Filter|Take|SkipWhile|TakeWhile|Zip|Chain|Cycle)\b")
 
 
